@@ -407,7 +407,8 @@ class Function:
         if k == "CXXThrowExpr":
             return "throw %s" % (R(c[0]) if c else "")
         if k == "DeclStmt":
-            return "; ".join("%s %s%s" % (d.get("type", ""), d.get("name", ""),
+            nm = getattr(self, "_names", None) or {}
+            return "; ".join("%s %s%s" % (d.get("type", ""), nm.get(d.get("id"), d.get("name", "")),
                                           (" = " + R(d["init"])) if d.get("init", -1) >= 0 else "")
                              for d in n.get("decls", []))
         if k == "LambdaExpr":
@@ -431,6 +432,11 @@ class Function:
                 elif d["kind"] == "Var" and d["id"] not in names:
                     names[d["id"]] = "v%d" % len(order)
                     order.append(d["id"])
+            elif n["k"] == "DeclStmt":
+                for d in n["decls"]:
+                    if d.get("dk") == "Var" and d["id"] not in names:
+                        names[d["id"]] = "v%d" % len(order)
+                        order.append(d["id"])
         self._names = names
         try:
             t = self.render(i)
@@ -885,6 +891,8 @@ def dataflow(f, entry_state, transfer, join, edge=None, entry_block=None, max_it
             st = transfer(st, e, b, j)
         OUT[b] = st
         cond = blk.get("termCond", -1)
+        if blk.get("noReturn") and not any(e.get("kind") == "stmt" and f.nodes[e["n"]]["k"] == "CXXThrowExpr" for e in blk["elems"]):
+            continue     # abort()/__assert_fail/pthread_exit: control does not continue to the exit block
         for k, s in enumerate(blk["succ"]):
             if s < 0:
                 continue
